@@ -4,6 +4,8 @@ CONSTANTS MaxDepth
 VARIABLE h
 MCVals == {-2, 0, 1, 3}
 MCValsSmall == {-2, 3}
+\* with +infinity in the alphabet: one finite value next to NaN and +inf
+MCValsOne == {3}
 KindsAll == {"compress", "repack", "condense", "export"}
 KindsQuick == {"compress", "export"}
 MCValsBig == {-2, -1, 0, 1, 2, 3}
